@@ -20,8 +20,9 @@ RULES = {
     "R3": "mask_screen / unmask_screen: constant masks np.zeros/np.ones(S.size, dtype=bool)",
     "R4": "ownership: _observations/_observation_mask written only by Screen.__init__ and Screen.set_observed; one selector",
     "R5": "extract_screen_metadata: each plate increments exactly one counter chosen by is_observed; JSON wiring",
+    "R6": "results of functions that may return None (empty observed/unobserved views, ...) are None-checked before any dereference",
 }
-MIN = {"R1": 5, "R2": 3, "R3": 2, "R4": 3, "R5": 3}
+MIN = {"R1": 5, "R2": 3, "R3": 2, "R4": 3, "R5": 3, "R6": 1}
 TRUSTED = ["numpy boolean indexing / np.isin semantics", "python ast"]
 TECHNIQUE = "dominance of refusal guards on the CFG, relational normal form of the mask expression, who-may-write scan"
 LEVEL_TEXT = ("Atomicity is an invariant re-established by the constructor at every operation (each operation builds its "
@@ -378,6 +379,25 @@ def r5_comprehension_idiom(ctx, f):
               "JSON keys carry the matching counters", f"n_unobserved_plates={wired.get('n_unobserved_plates')}, n_observed_plates={wired.get('n_observed_plates')}")
 
 
+def r6(ctx):
+    """the observed/unobserved views are None when empty (e.g. after the last plate is revealed): every use of a
+    possibly-None result must be None-checked (nil-safety over the resolved call graph)"""
+    from engine import optional
+    R, T = ctx.R, ctx.T
+    opt = {q for q, f in R.funcs.items() if optional.may_return_none(f.node)}
+    ctx.need({"batchie.data.Screen.subset_observed", "batchie.data.Screen.subset_unobserved"} <= opt,
+             "Screen.subset_observed / subset_unobserved are no longer Optional-returning; rule R6 would be vacuous")
+    n = 0
+    sites = 0
+    for q, f in sorted(R.funcs.items()):
+        fs = optional.check_function(R, T, f, opt)
+        n += 1
+        for what, callee, why in fs:
+            ctx.bad("R6", f"{f.site()}::{what}", why + " - e.g. once every plate is observed there is no unobserved view")
+        sites += sum(1 for c, cs, h in T.resolve_calls(q) if any(x in opt for x in cs))
+    ctx.ok("R6", "optional-results::None-checked", f"{sites} call sites of {len(opt)} Optional-returning functions in {n} functions; every dereference is guarded")
+
+
 def run(ctx):
     r1(ctx)
     r2(ctx)
@@ -386,7 +406,7 @@ def run(ctx):
     r5(ctx)
 
 
-RULE_FUNCS = [r1, r2, r3, r4, r5]
+RULE_FUNCS = [r1, r2, r3, r4, r5, r6]
 
 
 def _rep(a, b):
@@ -407,6 +427,8 @@ WITNESSES = [
      _rep('"n_unobserved_plates": n_unobserved_plates,', '"n_unobserved_plates": n_observed_plates,'), ["R5"]),
     ("unmask uses zeros", "batchie.retrospective",
      lambda t: t[:t.index("def unmask_screen")] + t[t.index("def unmask_screen"):].replace("np.ones(screen.size, dtype=bool)", "np.zeros(screen.size, dtype=bool)", 1), ["R3"]),
+    ("unobserved count through an Optional view", "batchie.cli.extract_screen_metadata",
+     _rep("        \"n_unobserved_plates\": n_unobserved_plates,", "        \"n_unobserved_plates\": experiment.subset_unobserved().n_plates,"), ["R6"]),
     ("NaN refusal removed", "batchie.retrospective",
      _rep("    if np.any(np.isnan(revealed_values)):\n        raise ValueError(\"NaN found in revealed observations, please check your data\")\n", ""), ["R2"]),
 ]
